@@ -28,6 +28,8 @@ Require Import V.Proofs.RingAgentRun.
 Require Import V.Proofs.RingStuck.
 Require Import V.Proofs.RingStuckForever.
 Require Import V.Proofs.RingSweepLog.
+Require Import V.Oracle.C07UOracle.
+Require Import V.Proofs.C07UOracleProofs.
 Open Scope Z_scope.
 
 (* every configuration reachable under any schedule (positions below 2^62) satisfies the invariant *)
@@ -250,6 +252,29 @@ Theorem C07_after_log : forall lo cfg, Inv lo cfg -> LogInv cfg -> cons_idle (g_
     log cfg = map tag2 (delivered (g_cons cfg)) ++ tags_of swept ++ tags_of suffix.
 Proof. exact after_unblock_log. Qed.
 Print Assumptions C07_after_log.
+
+(* part (1) of the trace oracle of the uconc cases (Oracle/C07UOracle.v, `confirm_ok`: the padding store is justified by
+   what that unblock() call itself read) is true of the model's unblock in every interleaving: `reads_inv ci u rs` relates the
+   program counter of the call to the (offset, value) pairs of its length-word reads so far (newest first); it is preserved by
+   every access of the call whatever ring it finds (the other threads may have done anything in between), and at the store it
+   is what confirm_ok demands *)
+Theorem C07_oracle_confirm_step : forall cp ci R u R' u' e rs, cap_ok cp -> r_cap R = cp ->
+  (exists h, pc_head u = Some h /\ h mod cp = ci) ->
+  match u with UReadLen _ _ | UScan _ _ _ | UBack _ _ _ => True | _ => False end ->
+  reads_inv ci u rs -> ustep R u = (R', inl u', e) ->
+  reads_inv ci u' (read_of e :: rs) /\ pc_head u' = pc_head u.
+Proof. exact reads_step. Qed.
+Print Assumptions C07_oracle_confirm_step.
+
+Theorem C07_oracle_confirm : forall ci L rs, 0 <= ci -> reads_inv ci (UPut 0 L) rs -> confirm_ok rs ci L = true.
+Proof. exact reads_confirm. Qed.
+Print Assumptions C07_oracle_confirm.
+
+Example C07_oracle_confirm_example :
+  reads_inv 8 (UPut 8 16) [(8, 0); (16, 0); (24, -8); (16, 0); (8, 0)] /\
+  confirm_ok [(8, 0); (16, 0); (24, -8); (16, 0); (8, 0)] 8 16 = true /\
+  confirm_ok [(16, 0); (24, -8); (16, 0); (8, 0)] 8 16 = false.
+Proof. split; [| split; vm_compute; reflexivity]. right. exists 1%nat, (-8). split; [reflexivity |]. split; [lia | reflexivity]. Qed.
 
 (* ---- non-vacuity: a survivor is inside write while unblock is between its scan and its store ---- *)
 Definition exu_x0 : aconfig := xstart (init 64 8 8 0) [CoUnblock] [[(1, payload 0 8)]; [(2, payload 1 0)]].
